@@ -68,8 +68,9 @@ FAMILIES = {
                         chain(4, hops=2, Fresh="= TRUE", Ops="<- OpsBarrier", Shapes="<- ShapesR", Shapes2="<- Shapes2R"),
                         sim(160, 4, design=False, NSlots="= 2", Fresh="= TRUE", Shapes="<- ShapesLong", Shapes2="<- Shapes2R"),
                         chain(4, hops=2, Fresh="= TRUE", Ops="<- OpsRetain", Shapes="<- ShapesOneW", Shapes2="<- Shapes2R")],
-                 thorough=[sim(20000, 7, design=False, NSlots="= 3", Fresh="= TRUE"),
-                           sim(10000, 7, design=False, NSlots="= 3", Fresh="= TRUE", Shapes="<- ShapesR",
+                 thorough=[sim(6000, 6, design=False, NSlots="= 2", Fresh="= TRUE"),
+                           sim(1500, 6, design=False, NSlots="= 3", Fresh="= TRUE"),
+                           sim(4000, 6, design=False, NSlots="= 2", Fresh="= TRUE", Shapes="<- ShapesR",
                                Shapes2="<- Shapes2R"),
                            chain(4, hops=2, Fresh="= TRUE", Ops="<- OpsBarrier", Shapes="<- ShapesR", Shapes2="<- Shapes2R"),
                            sim(3000, 6, design=False, NSlots="= 2", Fresh="= TRUE", Shapes="<- ShapesLong", Shapes2="<- Shapes2R"),
